@@ -280,6 +280,11 @@ def install(eng, tags):
             return ok(st, v)          # an `async def` of the client or a modelled connection call: it already ran
         client_cut(eng_, st, "await future")
         out = [cancel_outcome(eng_, st)]
+        # while this task was suspended, whoever holds the future (a registered message handler, its timeout timer) completed it:
+        # with a result or with some exception - nothing else is known here
+        if not z3.is_true(simp(rget(eng_, st, "Future.done", v.e))):
+            rset(eng_, st, "Future.done", v.e, z3.BoolVal(True))
+            rset(eng_, st, "Future.exc", v.e, z3.Const(fresh_name("completed_with"), ObjS))
         st.assume(rget(eng_, st, "Future.done", v.e))
         for s2, has in eng_.fork_bool(rget(eng_, st, "Future.exc", v.e) != cm.noexc, st, "future:exc"):
             if not has:
@@ -415,7 +420,9 @@ def lifecycle_contracts():
                  ensures=[P("C19", "clears-the-session-before-user-code-runs", "self._connection is None and cleared_before_user_code")]),
         Contract(CLI + "disconnect", self_type="inst[APIClient]", params={"force": "bool"}, tags=["C19"],
                  requires=[("not-wedged-before", NOT_WEDGED)],
-                 ensures=[P("C19", "never-leaves-a-closed-connection-behind", NOT_WEDGED)],
+                 ensures=[P("C19", "never-leaves-a-closed-connection-behind", NOT_WEDGED),
+                          # after disconnect() - at whatever stage it was called - the client is idle again: a new attempt is accepted
+                          P("C19", "forgets-the-connection-it-disconnected", "self._connection is None or self._connection is not old(self._connection)")],
                  raises={"CancelledError": {"kind": "auxiliary"}}),
         Contract(CLI + "_unsub_bluetooth_advertisements", self_type="inst[APIClient]", params={"unsub_callback": "callable[UserCb]"}, tags=["C19"],
                  ensures=[P("C19", "writes-only-to-a-live-session", "implies(n_sent > 0, old(connected(self)))")],
@@ -480,7 +487,7 @@ def ble_contracts():
                  params={"address": "int", "on_bluetooth_connection_state": "callable[UserCb]", "timeout": "real", "disconnect_timeout": "real",
                          "feature_flags": "int", "has_cache": "bool", "address_type": "opt[int]"},
                  setup=lambda eng, st: [region(eng, st, r) for r in cm.REGIONS],
-                 requires=[("timeouts-positive", "timeout > 0 and disconnect_timeout > 0"), ("address-fits", "address >= 0 and address < 2 ** 64"),
+                 requires=[("timeouts-positive", "timeout > 0 and disconnect_timeout >= 0"), ("address-fits", "address >= 0 and address < 2 ** 64"),
                            ("flags-nonneg", "feature_flags >= 0"), ("address-type-fits", "implies(address_type is not None, address_type >= 0 and address_type < 2 ** 32)")],
                  ensures=[P("C16", "success-leaves-only-the-returned-subscription", "live_subscriptions == 1 and not armed(timeout_handle)")],
                  raises={"TimeoutAPIError": {"kind": "property", "ensures": [
